@@ -799,6 +799,34 @@ func c09FindFiles(e *Env, rule string) {
 		return
 	}
 	globs := findCalls(fn, "path/filepath.Glob", false)
+	if len(globs) == 0 {
+		// the globbing lives in a helper that findFiles wraps (glob(pattern)): analyse that helper, provided
+		// findFiles hands it its own pattern and returns its result
+		for _, c := range callsIn(fn, false) {
+			g := c.Common().StaticCallee()
+			if g == nil || !e.P.InModule(g) || len(findCalls(g, "path/filepath.Glob", false)) != 1 || len(g.Params) == 0 {
+				continue
+			}
+			passes := false
+			for _, a := range c.Common().Args {
+				if a == ssa.Value(fn.Params[len(fn.Params)-1]) {
+					passes = true
+				}
+			}
+			returns := false
+			res := extractOf(c, 0)
+			for _, b := range fn.Blocks {
+				if ret, ok := b.Instrs[len(b.Instrs)-1].(*ssa.Return); ok && len(ret.Results) > 0 && res != nil && ret.Results[0] == res {
+					returns = true
+				}
+			}
+			if passes && returns {
+				reviewedSortHelpers[e.P.FuncKey(g)] = true
+				fn = g
+				globs = findCalls(fn, "path/filepath.Glob", false)
+			}
+		}
+	}
 	if len(globs) != 1 {
 		r.Undecide(rule, key+"#glob", fmt.Sprintf("%d calls of filepath.Glob, expected 1", len(globs)))
 		return
@@ -1099,10 +1127,33 @@ func c09FlagChain(e *Env) {
 }
 
 // sortSites: every call that sorts or reorders, in module code, is one of the reviewed sites.
+// reviewedSortHelpers: helpers that c09FindFiles accepted as the body of findFiles (filled per run).
+var reviewedSortHelpers = map[string]bool{}
+
 var reviewedSorts = map[string]string{
 	"internal/pkg/maps.Keys":                       "sorts the collected keys (engine M decides totality)",
 	"internal/pkg/imports.imports.Imports":         "sorts imports by path (engine M decides totality)",
 	"internal/cmd/runner.StepReadConfig.findFiles": "sorts the cleaned glob matches (R09.3)",
+}
+
+// globHelperOf: key names a function of the runner package that calls filepath.Glob once and is called by
+// findFiles only (the extracted body of findFiles).
+func globHelperOf(e *Env, key string) bool {
+	ff := e.P.Func("internal/cmd/runner", "StepReadConfig.findFiles")
+	if ff == nil {
+		return false
+	}
+	for _, c := range callsIn(ff, false) {
+		g := c.Common().StaticCallee()
+		if g == nil || !e.P.InModule(g) || len(findCalls(g, "path/filepath.Glob", false)) != 1 {
+			continue
+		}
+		k := strings.NewReplacer("(", "", ")", "", "*", "").Replace(e.P.FuncKey(g))
+		if k == key {
+			return true
+		}
+	}
+	return false
 }
 
 func sortSites(e *Env, rule string) {
@@ -1136,6 +1187,9 @@ func sortSites(e *Env, rule string) {
 							}
 						}
 					}
+				}
+				if !ok && globHelperOf(e, key) {
+					why, ok = "sorts the cleaned glob matches in the helper findFiles wraps (R09.3)", true
 				}
 				if ok {
 					e.R.Hold(rule, key+" -> "+name, "reviewed reordering site: "+why, e.P.Pos(call.Pos()))
